@@ -85,6 +85,7 @@ type Keys struct {
 	Master string `json:"master"` // master key
 	Victim string `json:"victim"` // a key only ever used as the target of keyban
 	Canary string `json:"canary"` // rw on canary/#/
+	Exact  string `json:"exact"`  // rw on exactly a/b/ (a target without '#': the depth of a request matters to it)
 }
 
 type kv struct{ K, V string }
@@ -113,6 +114,13 @@ func clientSeeds() []clientSeed {
 	return []clientSeed{
 		{Name: "connect", Kind: "connect"},
 		{Name: "ping", Kind: "ping", Prefix: []string{"connect"}},
+		// last wills are published when the connection has ended, i.e. outside the request loop: will channels of every
+		// shape, with a key for everything and with a key for exactly one channel
+		{Name: "connect-will-all", Kind: "connect", Channel: "a/b/", KeyName: "all"},
+		{Name: "connect-will-exact", Kind: "connect", Channel: "a/b/", KeyName: "exact"},
+		// the same shapes on the request path with the exact-target key
+		{Name: "subscribe-exact", Kind: "subscribe", Prefix: []string{"connect"}, Channel: "a/b/", KeyName: "exact"},
+		{Name: "publish-exact", Kind: "publish", Prefix: []string{"connect"}, Channel: "a/b/", QoS: 1, Payload: "hello", KeyName: "exact"},
 		{Name: "subscribe", Kind: "subscribe", Prefix: []string{"connect"}, Channel: "a/b/", KeyName: "all"},
 		{Name: "subscribe-last", Kind: "subscribe", Prefix: []string{"connect"}, Channel: "a/b/", Opts: []kv{{"last", "5"}}, KeyName: "all"},
 		{Name: "subscribe-window", Kind: "subscribe", Prefix: []string{"connect"}, Channel: "a/b/", Opts: []kv{{"from", tFrom}, {"until", tUntil}, {"last", "3"}}, KeyName: "all"},
@@ -156,6 +164,8 @@ func (k Keys) byName(n string) string {
 		return k.Ext
 	case "canary":
 		return k.Canary
+	case "exact":
+		return k.Exact
 	}
 	return k.All
 }
@@ -268,7 +278,12 @@ func buildPacket(s clientSeed, k Keys, devs []Dev, msgID uint16) (packet, error)
 		pb.u8(0x02 | 0x04 | 1<<3 | 0x20 | 0x80 | 0x40) // clean, will, will qos 1, will retain, username, password
 		pb.u16(30)
 		pb.str("clientid", []byte("hostile-client"))
-		pb.str("willtopic", []byte(topicOf(k.All, "will/", nil)))
+		if s.Channel != "" || channel != "" {
+			// a seed with its own will channel (and key); the channel deviations apply to it
+			pb.str("willtopic", []byte(topicOf(k.byName(s.KeyName), channel, opts)))
+		} else {
+			pb.str("willtopic", []byte(topicOf(k.All, "will/", nil)))
+		}
 		pb.str("willmsg", []byte("gone"))
 		pb.str("username", []byte("mallory"))
 		pb.str("password", []byte("secret"))
